@@ -320,8 +320,10 @@ func TestC18View(t *testing.T) {
 	runView(t, rep)
 }
 
-func runView(t *testing.T, rep *report.R) {
-	rapid.Check(t, func(rt *rapid.T) {
+func runView(t *testing.T, rep *report.R) { rapid.Check(t, viewProp(rep)) }
+
+func viewProp(rep *report.R) func(*rapid.T) {
+	return func(rt *rapid.T) {
 		d := &l2{rt: rt, ms: raft.NewMemoryStorage(), ref: &AbstractLog{}}
 		d.l = raft.NewVerifLog(d.ms, quiet{}, ^uint64(0))
 		defer func() {
@@ -375,5 +377,5 @@ func runView(t *testing.T, rep *report.R) {
 		}
 		rep.Case(d.overwroteInFlight || d.staleAck || d.snapWhileWriting, report.Digest(strings.Join(d.trace, ";")), cls,
 			func() string { return "L2: " + strings.Join(d.trace, " ; ") })
-	})
+	}
 }
